@@ -565,6 +565,8 @@ func FamilyValidateDefaults() ([]*Skeleton, map[string]int) {
 	add("root-enum", J{"enum": A{1, "a", nil}, "default": "@D0"}, 1)
 	add("prop", J{"properties": J{"a": J{"type": "boolean", "default": "@D0"}}}, 1)
 	add("prop-and-root", J{"type": "object", "required": A{"a"}, "default": "@D0", "properties": J{"a": J{"type": "number", "default": "@D1"}}}, 2)
+	add("required-prop-only", J{"required": A{"a"}, "properties": J{"a": J{"type": "integer", "default": "@D0"}}}, 1)
+	add("nested-required-prop", J{"properties": J{"o": J{"required": A{"a"}, "properties": J{"a": J{"type": "string", "default": "@D0"}}}}}, 1)
 	add("items", J{"items": J{"type": "array", "maxItems": 1, "default": "@D0"}}, 1)
 	add("allOf", J{"allOf": A{J{"multipleOf": 2, "default": "@D0"}, J{"not": J{"type": "null"}, "default": "@D1"}}}, 2)
 	add("defs", J{"$defs": J{"d": J{"const": "x", "default": "@D0"}}}, 1)
